@@ -19,7 +19,8 @@ type Frag struct {
 	N      int
 	Mem    []any  // 'u': string or int64 members
 	S      []int  // 's': the Go Slice (0..3 ints)
-	Script string // 'f': the filter text without "[?" and "]"
+	Scr    *Scr   // 'f': the filter script as a tree
+	Script string // 'f': its text (without "[?(" and ")]"), as the library parses it
 	filt   *jp.Filter
 }
 
@@ -29,8 +30,9 @@ func fWild() Frag          { return Frag{Kind: 'w'} }
 func fDescent() Frag       { return Frag{Kind: 'd'} }
 func fUnion(m ...any) Frag { return Frag{Kind: 'u', Mem: m} }
 func fSlice(s ...int) Frag { return Frag{Kind: 's', S: s} }
-func fFilter(s string) Frag {
-	return Frag{Kind: 'f', Script: s, filt: jp.MustNewFilter("[?(" + s + ")]")}
+func fFilter(t *Scr) Frag {
+	s := t.text()
+	return Frag{Kind: 'f', Scr: t, Script: s, filt: jp.MustNewFilter("[?(" + s + ")]")}
 }
 
 // goFrag is the fragment of the library.
@@ -129,9 +131,8 @@ func optInt(s []int, i int) string {
 	return strconv.Itoa(s[i])
 }
 
-// wire is the path in the driver's format; truth holds, for every filter fragment, the canonical
-// texts of the values on which its script is true.
-func (p Path) wire(truth map[string][]string) string {
+// wire is the path in the driver's format (a filter travels as its script, in postfix token form).
+func (p Path) wire() string {
 	if len(p) == 0 {
 		return "-"
 	}
@@ -165,46 +166,10 @@ func (p Path) wire(truth map[string][]string) string {
 			}
 			parts[i] = "s:" + st + ":" + optInt(f.S, 1) + ":" + optInt(f.S, 2)
 		case 'f':
-			parts[i] = "f:" + strings.Join(truth[f.Script], "|")
+			parts[i] = "q:" + f.Scr.rpn()
 		}
 	}
 	return strings.Join(parts, "/")
-}
-
-// truthTable evaluates every filter script of the path on every node of the tree (simple form) with
-// the library's own Script.Match: the model and the specification take the script as given (C12 is
-// about scripts), so its truth values are an input of the case.
-func (p Path) truthTable(nodes []*Node) map[string][]string {
-	var tt map[string][]string
-	for i := range p {
-		f := &p[i]
-		if f.Kind != 'f' {
-			continue
-		}
-		if tt == nil {
-			tt = map[string][]string{}
-		}
-		if _, done := tt[f.Script]; done {
-			continue
-		}
-		if f.filt == nil {
-			f.filt = jp.MustNewFilter("[?(" + f.Script + ")]")
-		}
-		seen := map[string]bool{}
-		trues := []string{}
-		for _, n := range nodes {
-			c := n.canon()
-			if seen[c] {
-				continue
-			}
-			seen[c] = true
-			if matchSafe(f.filt, n.simple()) {
-				trues = append(trues, c)
-			}
-		}
-		tt[f.Script] = trues
-	}
-	return tt
 }
 
 // sameTruth: every filter script of the path has the same truth value on every node of the tree held in
@@ -244,24 +209,6 @@ func matchSafe(f *jp.Filter, v any) (ok bool) {
 }
 
 // ---- generators ------------------------------------------------------------------------------
-
-// scripts used in filter fragments: only `@`-relative (Locate evaluates filters with a nil root and
-// Walk with the element as root, see the final report), total on the value pool (C12 covers faults).
-var scriptPool = []string{
-	"@ > 1",
-	"@ == 2",
-	"@.a == 1",
-	"@.a > 1",
-	"@.b",
-	"@.x != 0",
-	"@[0] == 1",
-	"@.a[0] > 0",
-	"@.a[?(@ > 1)][0] > 0",
-	"@.b[?(@.a == 1)].a == 1",
-	"@.*[?(@ > 1)] > 1",
-	"@ != null",
-	"@.a == 1 || @.b == 2",
-}
 
 type pathGen struct{ r *lib.Rng }
 
@@ -307,7 +254,7 @@ func (g *pathGen) frag() Frag {
 		}
 		return fSlice(s...)
 	default:
-		return fFilter(lib.Pick(g.r, scriptPool))
+		return fFilter(g.script())
 	}
 }
 
@@ -328,11 +275,12 @@ func fragAlphabet(full bool) []Frag {
 		fWild(), fDescent(),
 		fUnion("a", int64(0)), fUnion(int64(1), int64(0), "b"), fUnion(int64(-1), int64(5)),
 		fSlice(), fSlice(1), fSlice(0, 2), fSlice(-1, 0, -1), fSlice(0, maxEnd, 2), fSlice(2, 1, 3), fSlice(1, -1),
-		fFilter("@ > 1"), fFilter("@.a == 1"),
+		fFilter(op2("gt", at(), ki(1))), fFilter(op2("eq", at(fChild("a")), ki(1))), fFilter(op2("lte", at(), kf(2))),
 	}
 	if full {
 		a = append(a, fChild("x"), fNth(-2), fNth(3), fUnion("b", "a"), fSlice(-2), fSlice(3, -4, -2), fSlice(0, 3, 0),
-			fFilter("@.b"), fFilter("@[0] == 1"), fFilter("@.a[?(@ > 1)][0] > 0"))
+			fFilter(at(fChild("b"))), fFilter(op2("eq", at(fNth(0)), ki(1))), fFilter(op2("gte", ki(3), at(fChild("a")))),
+			fFilter(op2("gt", at(fChild("a"), fFilter(op2("gt", at(), ki(1))), fNth(0)), ki(0))))
 	}
 	return a
 }
